@@ -14,7 +14,6 @@ import (
 	"os/exec"
 	"path/filepath"
 	"runtime"
-	"runtime/coverage"
 	"sort"
 	"strconv"
 	"strings"
@@ -289,6 +288,13 @@ func TestVerifMain(t *testing.T) {
 	if prop == "" {
 		t.Skip("VERIF_CHECK not set")
 	}
+	defer func() { // coverage survey only: leave through the testing package (see vexit)
+		if r := recover(); r != nil {
+			if _, ok := r.(surveyExit); !ok {
+				panic(r)
+			}
+		}
+	}()
 	f, ok := vChecks[prop]
 	if !ok {
 		fmt.Printf("ENGINE-ERROR: no check registered for %q\n", prop)
@@ -557,9 +563,12 @@ func childArgs(args ...string) []string {
 
 // vexit ends the process; in the coverage survey the counters are written first (os.Exit skips the test binary's own flush).
 func vexit(code int) {
-	if dir := os.Getenv("VERIF_COVER"); dir != "" {
-		_ = coverage.WriteMetaDir(dir)
-		_ = coverage.WriteCountersDir(dir)
+	if os.Getenv("VERIF_COVER") != "" {
+		// the test binary writes its coverage counters only when the test function ends and the process leaves through
+		// the testing package; the exit code of a survey run is not used
+		panic(surveyExit{code})
 	}
 	os.Exit(code)
 }
+
+type surveyExit struct{ code int }
